@@ -13,7 +13,7 @@ EXPLANATION = ("each call compared with the Gallina model (sorted sums / objecti
                "algorithms report one value per objective, never worse than any heuristic. Theorems C18_*: all of these for the model, for inputs of EVERY size.")
 ASSUMPTIONS = ["non-negative integers, scaled totals below 2^53; ILP values <= 200 after scaling excluded (ILP is scaled only by 2 and 3 on values <= 60)"]
 CASE_TIMEOUT = 300
-SORTING_PART = ["greedy", "roundrobin", "multifit", "kk"]
+SORTING_PART = ["greedy", "roundrobin", "bidir", "multifit", "kk"]
 EXACT_PART = ["dp", "cg", "ckk", "snp", "rnp", "ilp"]
 SORTING_PACK = ["ffd", "bfd", "cover_dec", "cover_23", "cover_34"]
 ORDER_PACK = ["ff", "bf"]
